@@ -191,12 +191,8 @@ func NewAuthSession(addr, user, token string) (bus.Session, error) {
 		return nil, fmt.Errorf("contact server: %s", err)
 	}
 
-	s.serviceList, err = s.Directory.Services()
-	if err != nil {
-		return nil, fmt.Errorf("list services: %s", err)
-	}
-	vhook.Emit("session", s, "listed", "list", s.serviceList)
-	vhook.Gate("session.new.listed", s)
+	// subscribe to the changes before listing the services: a
+	// service announced in between is either listed or signaled.
 	var cancelRemoved, cancelAdded func()
 	cancelRemoved, s.removed, err = s.Directory.SubscribeServiceRemoved()
 	if err != nil {
@@ -204,6 +200,7 @@ func NewAuthSession(addr, user, token string) (bus.Session, error) {
 	}
 	cancelAdded, s.added, err = s.Directory.SubscribeServiceAdded()
 	if err != nil {
+		cancelRemoved()
 		return nil, fmt.Errorf("subscribe added signal: %s", err)
 	}
 	s.cancel = func() {
@@ -211,6 +208,16 @@ func NewAuthSession(addr, user, token string) (bus.Session, error) {
 		cancelAdded()
 	}
 	vhook.Emit("session", s, "subscribed")
+	list, err := s.Directory.Services()
+	if err != nil {
+		s.cancel()
+		return nil, fmt.Errorf("list services: %s", err)
+	}
+	s.serviceListMutex.Lock()
+	s.serviceList = list
+	s.serviceListMutex.Unlock()
+	vhook.Emit("session", s, "listed", "list", list)
+	vhook.Gate("session.new.listed", s)
 	go s.updateLoop()
 	return s, nil
 }
